@@ -134,7 +134,10 @@ def run_case(case):
     prog, err_t, brk_t = build(case)
     nums = [n for n, _ in prog]
     refs = references(prog)
-    obs["key"] = "%s|%d|%s|%s" % (kind, len(prog), sorted(r in nums for r in refs), case.get("opts"))
+    from ..gen import progtools
+
+    obs["key"] = "%s|%s|%s|%s" % (kind, progtools.prog_key(prog), [nums.index(r) if r in nums else -1 for r in sorted(refs)],
+                                  sorted((case.get("opts") or {}).items()))
 
     def v(sig, **kw):
         obs["viols"].append({"sig": sig, "detail": dict(kw, source=render(prog)[:1200], options=case.get("opts"))})
